@@ -1,1 +1,426 @@
-(** Model/Loader.v — placeholder, to be written. *)
+(** Model/Loader.v — pipeline look-up order of the default file loader, the parent / loader
+    cascade of [pypyr.steps.pype.get_arguments], the per-loader pipeline cache and
+    [add_sys_path].  One definition per Python function, same order of effects.
+
+    Anchors (pinned tree):
+      pypyr/loaders/file.py    get_pipeline_path, find_pipeline, load_pipeline_from_file
+      pypyr/steps/pype.py      get_arguments (loader / resolveFromParent / parent)
+      pypyr/pipeline.py        Pipeline.load_and_run_pipeline
+      pypyr/cache/loadercache.py  Loader.get_pipeline (the [parent+name] cache key)
+      pypyr/moduleloader.py    add_sys_path
+      pypyr/pipedef.py         PipelineInfo / PipelineFileInfo
+
+    Paths are strings.  [Path.resolve()] is modelled lexically (no symlinks): collapse empty,
+    [.] and [..] segments of an absolute path.  [Path.samefile] is string equality of resolved
+    paths.  The file system is two predicates: [e_is_file] and [e_exists]. *)
+From PV Require Export PyVal.
+Open Scope string_scope.
+
+(** * Paths *)
+Definition SLASH : ascii := "/"%char.
+Definition nl : string := String (ascii_of_nat 10) EmptyString.
+
+Definition is_abs (s : string) : bool := startswith "/" s.
+
+Definition segs (s : string) : list string := split_on SLASH s EmptyString.
+
+Definition dot_seg (x : string) : bool := (x =? "") || (x =? ".").
+
+(** segments of a resolved path; [acc] is reversed *)
+Fixpoint norm_segs (l acc : list string) : list string :=
+  match l with
+  | [] => rev acc
+  | x :: r => if dot_seg x then norm_segs r acc
+              else if x =? ".." then norm_segs r (tl acc)
+              else norm_segs r (x :: acc)
+  end.
+
+Definition abs_of_segs (l : list string) : string := "/" ++ join "/" l.
+
+(** [os.path.realpath] of an absolute path in a tree without symlinks *)
+Definition norm_abs (s : string) : string := abs_of_segs (norm_segs (segs s) []).
+
+(** [Path.joinpath]: an absolute right operand replaces the left one *)
+Definition joinpath (d f : string) : string :=
+  if is_abs f then f else if d =? "/" then "/" ++ f else d ++ "/" ++ f.
+
+(** [Path(s).resolve()] in a process whose working directory is [cwd] *)
+Definition resolve (cwd s : string) : string :=
+  if is_abs s then norm_abs s else norm_abs (joinpath cwd s).
+
+(** [path.parent] / [path.name] of a resolved path *)
+Definition dirname (p : string) : string := abs_of_segs (removelast (norm_segs (segs p) [])).
+Definition basename (p : string) : string := last (norm_segs (segs p) []) "".
+
+(** names the harness may generate: relative or absolute, no empty / [.] / [..] segment.
+    Anything else is outside the modelled fragment (the look-up itself would still run). *)
+Definition name_ok (name : string) : bool :=
+  let l := segs name in
+  let l' := match l with "" :: r => r | _ => l end in
+  negb (is_nil l') && forallb (fun x => negb (dot_seg x || (x =? ".."))) l'.
+
+(** * The [parent] argument: Python [None], a [str] (from pype's yaml) or a [Path] (set by
+    the file loader).  Truthiness: [None] and [''] are falsy, every [Path] is truthy. *)
+Inductive pyparent := PNone | PStr (s : string) | PPath (s : string).
+
+Definition p_truthy (p : pyparent) : bool :=
+  match p with PNone => false | PStr s => negb (s =? "") | PPath _ => true end.
+
+(** [str(parent)] / [f'{parent}'] *)
+Definition p_str (p : pyparent) : string :=
+  match p with PNone => "None" | PStr s => s | PPath s => s end.
+
+(** Python [==] between such objects: a [Path] never equals a [str] *)
+Definition pp_eqb (a b : pyparent) : bool :=
+  match a, b with
+  | PNone, PNone => true
+  | PStr x, PStr y => x =? y
+  | PPath x, PPath y => x =? y
+  | _, _ => false
+  end.
+
+(** * Environment: what [pypyr.config] / module globals / the file system supply *)
+Record env := {
+  e_cwd : string;          (* config.cwd, frozen at import; resolved *)
+  e_subdir : string;       (* config.pipelines_subdir when pypyr.loaders.file is imported *)
+  e_builtin : string;      (* builtin_pipelines_dir = {pypyr package}/pipelines *)
+  e_is_file : string -> bool;
+  e_exists : string -> bool
+}.
+
+Definition cwd_pipelines (e : env) : string := joinpath (e_cwd e) (e_subdir e).
+
+(** * pypyr.loaders.file.get_pipeline_path *)
+
+(** step 2: the parent directory is a search location iff given (truthy), it exists, and it
+    is not the same file as cwd *)
+Definition parent_locs (e : env) (parent : pyparent) : list string :=
+  if p_truthy parent then
+    let p := resolve (e_cwd e) (p_str parent) in
+    if e_exists e p then (if p =? e_cwd e then [] else [p]) else []
+  else [].
+
+Definition search_locations (e : env) (parent : pyparent) : list string :=
+  (parent_locs e parent ++ [e_cwd e; cwd_pipelines e; e_builtin e])%list.
+
+(** find_pipeline: first directory whose [dir/file_name] is a file *)
+Fixpoint find_first (is_file : string -> bool) (fname : string) (dirs : list string)
+  : option string :=
+  match dirs with
+  | [] => None
+  | d :: r => let p := joinpath d fname in
+              if is_file p then Some p else find_first is_file fname r
+  end.
+
+Definition PNF : string := "pypyr.errors.PipelineNotFoundError".
+
+Definition not_found_msg (fname : string) (dirs : list string) : string :=
+  fname ++ " not found in any of the following:" ++ nl ++ join nl dirs.
+
+Definition abs_missing_msg (fname : string) : string := fname ++ " does not exist.".
+
+Definition get_pipeline_path (e : env) (name : string) (parent : pyparent) : res string :=
+  let fname := name ++ ".yaml" in
+  if is_abs fname then
+    if e_is_file e fname then Ok (norm_abs fname) else Err PNF (abs_missing_msg fname)
+  else
+    let dirs := search_locations e parent in
+    match find_first (e_is_file e) fname dirs with
+    | Some p => Ok (norm_abs p)
+    | None => Err PNF (not_found_msg fname dirs)
+    end.
+
+(** The order the documentation promises: parent (whenever one is given), cwd,
+    cwd/pipelines, built-in.  [Proofs/LoaderProofs.v] shows the code's list gives the same
+    answer on every well-formed file system. *)
+Definition documented_order (e : env) (parent : pyparent) : list string :=
+  ((if p_truthy parent then [resolve (e_cwd e) (p_str parent)] else [])
+   ++ [e_cwd e; cwd_pipelines e; e_builtin e])%list.
+
+(** * pypyr.moduleloader.add_sys_path *)
+Record sysst := {
+  known : list pyparent;     (* _known_dirs: the objects themselves (Path or str) *)
+  syspath : list string      (* the part of sys.path pypyr appended *)
+}.
+
+Definition sys0 : sysst := {| known := []; syspath := [] |}.
+
+Definition add_sys_path (e : env) (st : sysst) (p : pyparent) : sysst :=
+  if existsb (pp_eqb p) (known st) then st
+  else
+    let s := p_str p in
+    if negb (e_exists e (resolve (e_cwd e) s)) then
+      {| known := p :: known st; syspath := syspath st |}
+    else
+      {| known := p :: known st;
+         syspath := if str_in s (syspath st) then syspath st else (syspath st ++ [s])%list |}.
+
+(** * PipelineInfo and loaders *)
+Record pinfo := {
+  i_name : string;
+  i_loader : string;
+  i_parent : pyparent;
+  i_lcasc : bool;       (* is_loader_cascading *)
+  i_pcasc : bool        (* is_parent_cascading *)
+}.
+
+Record pdef := { d_file : string; d_is_file_info : bool; d_info : pinfo }.
+
+Definition FILE_LOADER : string := "pypyr.loaders.file".
+
+(** the loaders the harness knows: the default file loader and three custom loaders
+    (harness/c19_loader*.py) that reuse [get_pipeline_path] but return, respectively, a bare
+    mapping (pypyr wraps it in a cascading [PipelineInfo] holding the parent AS PASSED), a
+    [PipelineInfo] with [is_parent_cascading=False], and one with [is_loader_cascading=False] *)
+Inductive lkind := LFile | LBare | LNoParentCasc | LNoLoaderCasc.
+
+Definition loader_kind (l : string) : option lkind :=
+  if l =? FILE_LOADER then Some LFile
+  else if l =? "c19_loader" then Some LBare
+  else if l =? "c19_loader_np" then Some LNoParentCasc
+  else if l =? "c19_loader_nl" then Some LNoLoaderCasc
+  else None.
+
+(** load_pipeline_from_file (for [LFile]): [add_sys_path(path.parent)], then
+    [PipelineFileInfo(pipeline_name=path.name, parent=path.parent, loader=__name__, path)].
+    [file_cache] (keyed by the resolved path) is not modelled: the definition is a function
+    of the path and [add_sys_path] is idempotent (proved), so a hit changes nothing. *)
+Definition file_info (path : string) : pinfo :=
+  {| i_name := basename path; i_loader := FILE_LOADER; i_parent := PPath (dirname path);
+     i_lcasc := true; i_pcasc := true |}.
+
+Definition load_pipeline (e : env) (st : sysst) (lname : string) (k : lkind)
+           (name : string) (parent : pyparent) : res (sysst * pdef) :=
+  let* path := get_pipeline_path e name parent in
+  match k with
+  | LFile =>
+      Ok (add_sys_path e st (PPath (dirname path)),
+          {| d_file := path; d_is_file_info := true; d_info := file_info path |})
+  | LBare =>
+      Ok (st, {| d_file := path; d_is_file_info := false;
+                 d_info := {| i_name := name; i_loader := lname; i_parent := parent;
+                              i_lcasc := true; i_pcasc := true |} |})
+  | LNoParentCasc =>
+      Ok (st, {| d_file := path; d_is_file_info := false;
+                 d_info := {| i_name := name; i_loader := lname; i_parent := parent;
+                              i_lcasc := true; i_pcasc := false |} |})
+  | LNoLoaderCasc =>
+      Ok (st, {| d_file := path; d_is_file_info := false;
+                 d_info := {| i_name := name; i_loader := lname; i_parent := parent;
+                              i_lcasc := false; i_pcasc := true |} |})
+  end.
+
+(** * pypyr.steps.pype.get_arguments: loader / resolveFromParent / parent *)
+
+(** [dict.get(key, default)]: key absent -> default; present with yaml null -> None *)
+Inductive optkey (A : Type) := Absent | Null | Given (a : A).
+Arguments Absent {A}.
+Arguments Null {A}.
+Arguments Given {A} a.
+
+Record pype_opts := {
+  o_loader : optkey string;     (* pype.loader *)
+  o_resolve : option bool;      (* pype.resolveFromParent *)
+  o_parent : optkey string;     (* pype.parent *)
+  o_pydir : option string       (* pype.pyDir *)
+}.
+
+Definition default_opts : pype_opts :=
+  {| o_loader := Absent; o_resolve := None; o_parent := Absent; o_pydir := None |}.
+
+(** [loader = pype.get('loader', parent_loader if is_loader_cascading else None)] *)
+Definition child_loader (info : pinfo) (o : pype_opts) : option string :=
+  match o_loader o with
+  | Absent => if i_lcasc info then Some (i_loader info) else None
+  | Null => None
+  | Given l => Some l
+  end.
+
+(** [parent_default = info.parent if is_resolve_from_parent and loader == parent_loader
+     else None];  [parent = pype.get('parent', parent_default)] *)
+Definition child_parent (info : pinfo) (o : pype_opts) : pyparent :=
+  let rfp := match o_resolve o with None => i_pcasc info | Some b => b end in
+  let same := match child_loader info o with Some l => l =? i_loader info | None => false end in
+  let dflt := if rfp && same then i_parent info else PNone in
+  match o_parent o with
+  | Absent => dflt
+  | Null => PNone
+  | Given s => PStr s
+  end.
+
+(** * loadercache: [get_pype_loader] and [Loader.get_pipeline] *)
+
+(** [if loader: ... else: loader = config.default_loader] *)
+Definition effective_loader (l : option string) : string :=
+  match l with Some s => if s =? "" then FILE_LOADER else s | None => FILE_LOADER end.
+
+(** [normalized_name = f'{parent}+{name}' if parent else name] *)
+Definition cache_key (parent : pyparent) (name : string) : string :=
+  if p_truthy parent then p_str parent ++ "+" ++ name else name.
+
+Definition pcache := list (string * string * pdef).   (* loader name, key, definition *)
+
+Fixpoint cache_find (l key : string) (c : pcache) : option pdef :=
+  match c with
+  | [] => None
+  | (l', k', d) :: r => if (l =? l') && (key =? k') then Some d else cache_find l key r
+  end.
+
+Record state := { s_sys : sysst; s_cache : pcache }.
+Definition state0 : state := {| s_sys := sys0; s_cache := [] |}.
+
+(** Loader.get_pipeline: cached by key, else load and remember (failures are not stored) *)
+Definition get_pipeline (e : env) (st : state) (lname : string) (k : lkind)
+           (name : string) (parent : pyparent) : res (state * pdef) :=
+  match cache_find lname (cache_key parent name) (s_cache st) with
+  | Some d => Ok (st, d)
+  | None =>
+      let* (sys2, d) := load_pipeline e (s_sys st) lname k name parent in
+      Ok ({| s_sys := sys2; s_cache := (lname, cache_key parent name, d) :: s_cache st |}, d)
+  end.
+
+(** * Running: generated pipelines are  probe ; [sibling custom step] ; pype calls *)
+Record call := { c_name : string; c_opts : pype_opts }.
+
+Record pipe := {
+  p_id : string;               (* marker written into the file: its own location *)
+  p_silent : bool;             (* a real built-in pipeline: no probe inside *)
+  p_mod : option string;       (* custom step module this pipeline uses *)
+  p_calls : list call
+}.
+
+Record world := { w_env : env; w_content : string -> option pipe }.
+
+Definition event := list string.
+Inductive status := SDone | SRaised (name msg : string) | SUnsup.
+
+Definition bstr (b : bool) : string := if b then "true" else "false".
+
+Definition parent_kind (p : pyparent) : string :=
+  match p with PNone => "N" | PStr _ => "S" | PPath _ => "P" end.
+Definition parent_text (p : pyparent) : string :=
+  match p with PNone => "" | PStr s => s | PPath s => s end.
+
+Definition probe_event (p : pipe) (d : pdef) : event :=
+  let i := d_info d in
+  ["f"; p_id p; i_name i; i_loader i; parent_kind (i_parent i); parent_text (i_parent i);
+   bstr (i_lcasc i);
+   bstr (i_pcasc i); if d_is_file_info d then d_file d else ""].
+
+(** Python's import of a top-level module: first sys.path entry holding [<mod>.py]
+    (entries are only ever appended, so the first hit is stable; relative entries are
+    relative to the working directory) *)
+Definition find_module (e : env) (sp : list string) (m : string) : option string :=
+  find_first (e_is_file e) (m ++ ".py")
+             (map (fun d => if is_abs d then d else joinpath (e_cwd e) d) sp).
+
+Definition PMNF : string := "pypyr.errors.PyModuleNotFoundError".
+
+Definition rec_t := state -> option string -> option string -> string -> pyparent
+                    -> state * list event * status.
+
+Fixpoint run_calls (rec : rec_t) (st : state) (info : pinfo) (calls : list call)
+  : state * list event * status :=
+  match calls with
+  | [] => (st, [], SDone)
+  | c :: r =>
+      let o := c_opts c in
+      let '(st1, ev1, s1) :=
+        rec st (child_loader info o) (o_pydir o) (c_name c) (child_parent info o) in
+      match s1 with
+      | SDone => let '(st2, ev2, s2) := run_calls rec st1 info r in (st2, (ev1 ++ ev2)%list, s2)
+      | _ => (st1, ev1, s1)
+      end
+  end.
+
+(** Pipeline.load_and_run_pipeline(context, parent) for a Pipeline(name, loader, py_dir) *)
+Fixpoint run_pipeline (fuel : nat) (w : world) (st : state) (loader pydir : option string)
+         (name : string) (parent : pyparent) : state * list event * status :=
+  match fuel with
+  | O => (st, [], SUnsup)
+  | S f =>
+      let e := w_env w in
+      if negb (name_ok name) then (st, [], SUnsup) else
+      (* if self.py_dir: add_sys_path(self.py_dir) *)
+      let sys1 := match pydir with
+                  | Some d => if d =? "" then s_sys st else add_sys_path e (s_sys st) (PStr d)
+                  | None => s_sys st
+                  end in
+      let st1 := {| s_sys := sys1; s_cache := s_cache st |} in
+      let lname := effective_loader loader in
+      match loader_kind lname with
+      | None => (st1, [], SUnsup)
+      | Some k =>
+          match get_pipeline e st1 lname k name parent with
+          | Unsup => (st1, [], SUnsup)
+          | Err n m => (st1, [], SRaised n m)
+          | Ok (st2, d) =>
+              match w_content w (d_file d) with
+              | None => (st2, [], SUnsup)
+              | Some p =>
+                  let ev0 := if p_silent p then [] else [probe_event p d] in
+                  match p_mod p with
+                  | None =>
+                      let '(st3, ev, s) := run_calls (run_pipeline f w) st2 (d_info d) (p_calls p) in
+                      (st3, (ev0 ++ ev)%list, s)
+                  | Some m =>
+                      match find_module e (syspath (s_sys st2)) m with
+                      | None => (st2, ev0, SRaised PMNF m)
+                      | Some mp =>
+                          let '(st3, ev, s) :=
+                            run_calls (run_pipeline f w) st2 (d_info d) (p_calls p) in
+                          (st3, (ev0 ++ ["m"; mp] :: ev)%list, s)
+                      end
+                  end
+              end
+          end
+      end
+  end.
+
+(** * Case evaluation (correspondence run) *)
+Definition FUEL : nat := 40.
+
+Definition mk_env (cwd subdir builtin : string) (files existing : list string) : env :=
+  {| e_cwd := cwd; e_subdir := subdir; e_builtin := builtin;
+     e_is_file := fun p => str_in (norm_abs p) files;
+     e_exists := fun p => str_in (norm_abs p) existing |}.
+
+Fixpoint assoc_str {A} (k : string) (l : list (string * A)) : option A :=
+  match l with
+  | [] => None
+  | (k', v) :: r => if k =? k' then Some v else assoc_str k r
+  end.
+
+(** [pipes]: pipeline files with their content; [others]: further regular files (modules);
+    [dirs]: existing directories *)
+Definition mk_world (cwd subdir builtin : string) (pipes : list (string * pipe))
+           (others dirs : list string) : world :=
+  let files := (map fst pipes ++ others)%list in
+  {| w_env := mk_env cwd subdir builtin files (files ++ dirs)%list;
+     w_content := fun p => assoc_str p pipes |}.
+
+(** observation = probe / module events, then the outcome, then what pypyr appended to
+    sys.path, then the import-time constants of the file loader *)
+Definition env_event (w : world) (real_builtin : string) : event :=
+  ["env"; e_cwd (w_env w); cwd_pipelines (w_env w); real_builtin; FILE_LOADER].
+
+Definition run_case (w : world) (real_builtin : string) (loader pydir : option string)
+           (name : string) : res (list event) :=
+  let '(st, ev, s) := run_pipeline FUEL w state0 loader pydir name PNone in
+  let tail := ["syspath" :: syspath (s_sys st); env_event w real_builtin] in
+  match s with
+  | SUnsup => Unsup
+  | SDone => Ok (ev ++ ["ok"] :: tail)%list
+  | SRaised n m => Ok (ev ++ ["err"; n; m] :: tail)%list
+  end.
+
+Definition obs_eqb : list event -> list event -> bool := list_eqb (list_eqb String.eqb).
+
+Definition check_case (w : world) (real_builtin : string) (loader pydir : option string)
+           (name : string) (obs : list event) : nat :=
+  verdict obs_eqb (run_case w real_builtin loader pydir name) (Ok obs).
+
+Definition mkopts l r p d : pype_opts :=
+  {| o_loader := l; o_resolve := r; o_parent := p; o_pydir := d |}.
+Definition mkcall n o : call := {| c_name := n; c_opts := o |}.
+Definition mkpipe i s m c : pipe := {| p_id := i; p_silent := s; p_mod := m; p_calls := c |}.
